@@ -290,4 +290,15 @@ func init() {
 			{Name: "es", Pkg: "c19", Run: "^TestC19EventStream$", QuickChecks: 8000, ThoroughChecks: 80000, ThoroughShards: 16, CaseFile: true, CrashOracle: "no-crash", Inject: actorOverlay},
 		},
 	}
+
+	registry["C20"] = &Check{
+		Rule: "virtual time (synctest), 100 ms grid over a horizon of 1-4.5 s: 1-3 actors and 1-10 timed operations from {Once(delay in 0, 1 ns, 100 ms, 250 ms, 300 ms, 1 s, 2 h), Loop(interval in 100 ms .. 3 s), Cron(valid every-2-seconds expression / invalid expression), Cancel(reference), Cancel(unknown), Clear, kill the owner, restart the owner (failure answered by Restart)} with 3 shared reference names, self or another actor as receiver. A reference model computes for every job the exact firing instants up to its end (cancel / clear / owner termination / owner restart): instants strictly before the end must fire exactly once, instants after it never (neither as a delivery nor as a dead letter), the end instant itself may or may not fire; return values: invalid cron => parse error and no delivery ever, Cancel(unknown) => not-found, others nil; the delivery carries the original message value to the named receiver. A reference that is reused while its previous job may still be live is not judged (unspecified). Non-trivial = a job ended between two of its firing instants. Distinct = hash of the case.",
+		Assumptions: []string{
+			"go-quartz fires at exact instants on the virtual clock; two jobs due at the same instant may reach the mailbox in either order (compared per job, not across jobs)",
+			"the cron clause uses one valid expression (*/2 * * * * *) on a clock that starts at a whole second",
+		},
+		Units: []Unit{
+			{Name: "sched", Pkg: "c20", Run: "^TestC20Scheduler$", QuickChecks: 8000, ThoroughChecks: 80000, ThoroughShards: 16, CaseFile: true, CrashOracle: "no-crash"},
+		},
+	}
 }
